@@ -447,6 +447,15 @@ fn cfgs() -> Vec<Cfg> {
         c("U6", true, "init", Some(""), &[("@pkg", "pkg")], true),
         c("U7", true, "init", Some(""), &[], false),
         c("U8", true, "init", Some(""), &[("@pkg", "./pkg")], false),
+        // sources / aliases whose value is a FILE (an ordinary file, a module-folder file, with and without
+        // extension) next to directory-valued ones
+        c("PF", false, "init", Some(""), &[("@value", "src/value/init.luau"), ("@valuex", "src/value/init"), ("@vdir", "src/value"),
+                                          ("@b", "lib/b.lua"), ("@bx", "lib/b"), ("@lib", "lib")], false),
+        c("UF", true, "init", Some(""), &[("@value", "src/value/init.luau"), ("@valuex", "src/value/init"), ("@vdir", "src/value"),
+                                         ("@b", "lib/b.lua"), ("@bx", "lib/b"), ("@lib", "lib")], false),
+        // the documented spelling with a leading `./`
+        c("PG", false, "init", Some(""), &[("@value", "./src/value/init.luau"), ("@pkg", "./packages")], false),
+        c("UG", true, "init", Some(""), &[("@value", "./src/value/init.luau"), ("@pkg", "./packages")], false),
         // the darklua configuration is in `project/` (an ancestor of the sources) ...
         c("P9", false, "init", Some("project"), &[("vendor", "vendor"), ("@cfg", "./packages")], true),
         c("U9", true, "init", Some("project"), &[("@vendor", "vendor"), ("@cfg", "./packages")], true),
@@ -494,6 +503,12 @@ fn layouts() -> Vec<Layout> {
           "src/pkg/init.config.lua", "src/pkg/index.config.luau"],
         &["src/pkg/init.spec.luau", "src/pkg/init.server.luau", "src/pkg/init.luau", "src/pkg/index.spec.lua",
           "src/pkg/index.lua", "src/a.lua", "init.spec.luau"],
+    ));
+    // targets of file-valued sources
+    list.push(l(
+        "LV",
+        &["src/value/init.luau", "src/value/init.lua", "src/value/init", "src/value.luau", "lib/b.lua", "lib/b.luau", "lib/b/init.lua"],
+        &["src/a.lua", "src/init.lua", "main.lua", "src/value/helper.lua", "src/sub/init.luau", "packages/value.luau"],
     ));
     // a project in a sub-directory: `sources` are relative to the configuration location, .luaurc
     // aliases to the directory of their .luaurc (three of them, at different depths)
@@ -547,12 +562,21 @@ const PROJECT: &[&str] = &[
     "../packages/lib", "../../packages/lib", "./local/lib", "@unknown/lib", "../vendor/lib", "./main",
 ];
 
+const FILE_VALUED: &[&str] = &[
+    "@value", "@valuex", "@vdir", "@vdir/init", "@vdir/init.luau", "./value", "./value/init", "./value/init.luau", "../value",
+    "./init", "./init.luau", "@self/value", "@b", "@bx", "@lib/b", "@lib/b.lua", "../lib/b", "../lib/b.lua", "../../lib/b.lua",
+    "@value/x", "@pkg/value", "./src/value", "./lib/b.lua",
+];
+
 fn lits_for(layout: &str, quick: bool) -> Vec<&'static str> {
     if layout == "LH" {
         return INIT_LIKE.to_vec();
     }
     if layout == "LP" {
         return PROJECT.to_vec();
+    }
+    if layout == "LV" {
+        return FILE_VALUED.to_vec();
     }
     if !quick {
         return COMMON.to_vec();
@@ -570,6 +594,7 @@ fn lits_for(layout: &str, quick: bool) -> Vec<&'static str> {
         "LG" => &["./b.lua.lua", "./b.lua", "./b.txt", "./b.txt.lua", "./b.", "./.luau", "./.luau.lua", "./init.txt", "./init", "./b", "."],
         "LH" => INIT_LIKE,
         "LP" => PROJECT,
+        "LV" => FILE_VALUED,
         "LR" => &["@pkg/b", "pkg/b", "@root/src/a", "@root/pkg/b", "@here/c", "@unknown/b", "./b", "../pkg/b", "../lib/b"],
         _ => COMMON,
     };
@@ -585,6 +610,7 @@ fn srcs_for(layout: &str) -> Vec<&'static str> {
         "LH" => vec!["src/pkg/init.spec.luau", "src/pkg/init.server.luau", "src/pkg/init.luau", "src/pkg/index.spec.lua",
                      "src/pkg/index.lua", "src/a.lua", "init.spec.luau"],
         "LP" => vec!["project/src/main.lua", "project/src/init.luau", "project/src/deep/mod.lua", "project/src/deep/init.lua", "tools/run.lua"],
+        "LV" => vec!["src/a.lua", "src/init.lua", "main.lua", "src/value/helper.lua", "src/sub/init.luau"],
         "LF" => vec!["/project/src/a.lua", "/project/src/init.lua", "/project/main.lua", "/main.lua", "/init.lua"],
         _ => vec!["src/a.lua", "src/init.lua", "main.lua"],
     }
@@ -601,6 +627,7 @@ fn cfgs_for(layout: &str) -> Vec<&'static str> {
         "LG" => vec!["P0", "U0", "P2"],
         "LH" => vec!["P0", "U0", "P1"],
         "LP" => vec!["P9", "U9", "PA", "UA"],
+        "LV" => vec!["PF", "UF", "PG", "UG"],
         "LR" => vec!["P6", "U6", "P3", "U3"],
         _ => vec![],
     }
@@ -618,6 +645,7 @@ fn pairs_for(layout: &str) -> Vec<(&'static str, &'static str)> {
         "LG" => vec![("P0", "U0"), ("U0", "P0")],
         "LH" => vec![("P0", "U0"), ("U0", "P0"), ("P1", "U0"), ("U0", "P1")],
         "LP" => vec![("P9", "U9"), ("U9", "P9"), ("PA", "UA"), ("UA", "PA")],
+        "LV" => vec![("PF", "UF"), ("UF", "PF"), ("PG", "UG"), ("UG", "PG"), ("PF", "PF"), ("UF", "UF")],
         "LR" => vec![("P6", "U6"), ("U6", "P6")],
         _ => vec![],
     }
